@@ -11,6 +11,8 @@ AST (JSON-able lists):
   ["ite", c, t, e, form]           if_true_then_else; form in list|pos
   ["attr", a, name]                a.name        (lambda form only; nested packets)
   ["rawrem"]                       len(raw) - offset   (lambda form only; raw-inspecting)
+  ["relpos"]                       offset - start of the innermost packet   (lambda form only; uses the callable protocol's
+                                   'offset' and 'innermost-pkt-pos' arguments, relocatable)
 No bisturi import here.
 """
 import operator
@@ -35,7 +37,7 @@ def fields_of(e, acc=None):
     if t == "f":
         if e[1] not in acc:
             acc.append(e[1])
-    elif t == "c" or t == "rawrem":
+    elif t in ("c", "rawrem", "relpos"):
         pass
     elif t == "bin":
         fields_of(e[2], acc); fields_of(e[3], acc)
@@ -59,7 +61,7 @@ def fields_of(e, acc=None):
 def uses_raw(e):
     if not isinstance(e, list):
         return False
-    if e[0] == "rawrem":
+    if e[0] in ("rawrem", "relpos"):
         return True
     return any(uses_raw(x) for x in e[1:] if isinstance(x, list)) or any(
         uses_raw(y) for x in e[1:] if isinstance(x, list) for y in x if isinstance(y, list))
@@ -76,6 +78,9 @@ def render(e, lam):
     if t == "rawrem":
         assert lam
         return "(len(k['raw']) - k['offset'])"
+    if t == "relpos":
+        assert lam
+        return "(k['offset'] - k['innermost-pkt-pos'])"
     if t == "bin":
         return "(%s %s %s)" % (render(e[2], lam), BINOPS[e[1]][0], render(e[3], lam))
     if t == "un":
@@ -130,8 +135,8 @@ def is_deferrable(e):
 
 class Env:
     """values visible to an expression: fields of the current packet (+ raw/offset for raw-inspecting callables)"""
-    def __init__(self, values, raw=None, offset=None):
-        self.values, self.raw, self.offset = values, raw, offset
+    def __init__(self, values, raw=None, offset=None, inner=None):
+        self.values, self.raw, self.offset, self.inner = values, raw, offset, inner
 
 
 def evaluate(e, env):
@@ -143,6 +148,8 @@ def evaluate(e, env):
         return e[1]
     if t == "rawrem":
         return len(env.raw) - env.offset
+    if t == "relpos":
+        return env.offset - env.inner
     if t == "bin":
         l = evaluate(e[2], env)
         r = evaluate(e[3], env)
